@@ -144,6 +144,10 @@ def solve(text, timeout_s=10, thorough=False, want_model=False):
                     attempts.append({'backend': be, 'result': 'error', 'secs': round(secs, 3), 'reason': (out + ' ' + (err or ''))[:400]})
             if final is not None and not thorough:
                 break
+            if final is not None and thorough and not final.get('_capped'):
+                # thorough tier cross-checks the back ends: the others get a bounded extra time to agree or contradict
+                final['_capped'] = True
+                deadline = min(deadline, time.time() + 10)
             if pending:
                 time.sleep(0.005)
         for be, p in pending.items():
@@ -162,6 +166,7 @@ def solve(text, timeout_s=10, thorough=False, want_model=False):
     if final is None:
         errs = [a for a in attempts if a['result'] == 'error']
         final = {'result': 'error' if (attempts and len(errs) == len(attempts)) else 'unknown', 'backend': None, 'secs': time.time() - t0, 'model': None}
+    final.pop('_capped', None)
     final['attempts'] = attempts
     return final
 
